@@ -260,9 +260,22 @@ def _nl():
     return z3.StringVal('\n')
 
 
+def _body_fn():
+    return z3.Function('line_body', z3.StringSort(), z3.StringSort())
+
+
+def line_body_axioms(x):
+    """line_body(x) is x without its final '\n', if it has one (defining equations, valid for every string)"""
+    b = _body_fn()(x)
+    ends = z3.SuffixOf(_nl(), x)
+    return [z3.Implies(ends, x == z3.Concat(b, _nl())), z3.Implies(z3.Not(ends), b == x)]
+
+
 def is_line_term(x):
-    """|x| > 0 and no '\\n' in x except possibly as the last character (no fresh symbols: usable under quantifiers)"""
-    return z3.And(z3.Length(x) > 0, z3.Not(z3.Contains(z3.SubString(x, 0, z3.Length(x) - 1), _nl())))
+    """|x| > 0 and no '\n' in x except possibly as the last character: no '\n' in line_body(x).
+    (No fresh symbols: usable under quantifiers.  The decomposition x == line_body(x) [+ '\n'] is what the
+    string solvers handle well; `substr(x, 0, |x|-1)` is what they do not.)"""
+    return z3.And(z3.Length(x) > 0, z3.Not(z3.Contains(_body_fn()(x), _nl())))
 
 
 def m_is_line(interp, args, kwargs):
@@ -271,7 +284,10 @@ def m_is_line(interp, args, kwargs):
         x = interp.resolve(x)
     if isinstance(x, str):
         return x != '' and '\n' not in x[:-1]
-    return wrap(is_line_term(to_z3(x)))
+    t = to_z3(x)
+    for ax in line_body_axioms(t):
+        interp.st._add(ax)          # definitional; under a quantifier the engine generalises it over the bound index
+    return wrap(is_line_term(t))
 
 
 def _lines_fns():
@@ -316,6 +332,7 @@ def lines_of_text(interp, t):
     st._add(lp(tt, n) == tt)
     st._add((n == 0) == (tt == z3.StringVal('')))
     st._add(z3.ForAll([j], z3.Implies(z3.And(j >= 0, j < n), is_line_term(la(tt, j)))))
+    st._add(z3.ForAll([j], z3.And(*line_body_axioms(la(tt, j)))))
     st._add(z3.ForAll([j], z3.Implies(z3.And(j >= 0, j < n - 1), z3.SuffixOf(_nl(), la(tt, j)))))
     return xs
 
